@@ -153,6 +153,9 @@ def assertion_inputs(B, out, perc_of_valuation):
 
 
 def run_task(task):
+    if task["params"].get("mode") == "models":
+        from checks import c18_models
+        return c18_models.run_task(task)
     from engine import oracles
     oracles.install()
     oracles.LIST_ORDER = task["params"].get("order", "canonical")
@@ -193,6 +196,9 @@ def run_task(task):
 
 
 def replay(rec):
+    if rec["params"].get("mode") == "models":
+        from checks import c18_models
+        return c18_models.replay(rec)
     B = ConcreteNet.from_bnet(rec["rules"])
     if rec["params"]["mode"] == "union":
         out = execute_union(rec["rules"], rec["params"]["strat"], B.names, rec["params"]["na"])
@@ -221,6 +227,16 @@ def tasks(tier, seed, selftest=False):
     if selftest:
         add("P:U2+U1", {"mode": "union", "strat": "build", "na": 2}, 60)
         return T
+    # third sentence, the solver-decidable part: the repository's published models (5-321 variables), see c18_models.py
+    import glob
+    import os
+    mdir = os.path.join(os.environ.get("VERIF_REPO", "/repo"), "models/bbm-bnet-inputs-true")
+    paths = sorted(glob.glob(os.path.join(mdir, "*.bnet")), key=os.path.getsize)
+    big, small = paths[-24:], paths[:-24]
+    for pth in big:
+        T.append({"prop": PROP, "family": "-", "label": "models/large", "timebox": 30, "seed": seed, "params": {"mode": "models", "models": [pth]}})
+    for i in range(0, len(small), 24):
+        T.append({"prop": PROP, "family": "-", "label": "models/small", "timebox": 20, "seed": seed, "params": {"mode": "models", "models": small[i:i + 24]}})
     for strat in ("build", "scc", "bfs"):
         add("P:U2+U1", {"mode": "union", "strat": strat, "na": 2}, 30 if q else 900)
         add("P:U2+U2", {"mode": "union", "strat": strat, "na": 2}, 40 if q else 1800)
@@ -247,5 +263,6 @@ def main(tier, seed, t0, selftest=False):
     return common.finish(PROP, tier, seed, "model_checking", results, t0, selftest=selftest, functions=FUNCTIONS,
                          bounds={"union": "symbolic product networks U2xU1, U2xU2, NEST4xSW2 (6 variables, solver-constrained nested component; strategy scc) (quick); + D3xU2, MAA3xSW2 (thorough); strategies build, expand_scc, expand_bfs on union and parts",
                                  "inputs": "S1C2 (1 source + 2 core variables), S2C2 (2 sources + 2 core); all valuations of the sources; fixed-input network = SymNet view sharing the bits",
-                                 "not claimed": "third sentence of C18 (agreement with an independent symbolic attractor computation on large published models): native AEON reachability on up to 2^321 states cannot be encoded; running both tools is differential testing, not a solver verdict"},
+                                 "published models": "all models of models/bbm-bnet-inputs-true (5-321 variables): z3 over all states decides closedness of every reported minimal trap space, soundness and COMPLETENESS of the fixed-point attractors, seeds inside their spaces / one per minimal trap space (checks/c18_models.py)",
+                                 "not claimed": "of the third sentence of C18: that a complex attractor inside a reported minimal trap space is the only one there and that no motif-avoidant attractor exists, on the large models (reachability on up to 2^321 states has no bounded encoding within reach; running AEON next to biobalm would be differential testing, not a solver verdict)"},
                          assumptions=["contract stubs of DESIGN.md §8 validated on every representative"])
